@@ -226,6 +226,13 @@ class Program:
                     for t in tg:
                         for x in ast.walk(t):
                             if isinstance(x, (ast.Attribute, ast.Subscript)) and isinstance(getattr(x, "ctx", None), (ast.Store, ast.Del)):
+                                # lazy-initialised getter:  if self.X is None: self.X = <new object>   (idempotent, observably pure)
+                                p_ = getattr(n, "_parent", None)
+                                if isinstance(n, ast.Assign) and isinstance(p_, ast.If) and isinstance(p_.test, ast.Compare) and len(p_.test.ops) == 1 \
+                                        and isinstance(p_.test.ops[0], ast.Is) and ast.unparse(p_.test.left) == ast.unparse(t) \
+                                        and isinstance(p_.test.comparators[0], ast.Constant) and p_.test.comparators[0].value is None \
+                                        and isinstance(n.value, ast.Call) and isinstance(n.value.func, ast.Name) and n.value.func.id[:1].isupper():
+                                    continue
                                 return True
                 if isinstance(n, ast.Call):
                     fn = n.func
@@ -247,7 +254,7 @@ class Program:
                         if fn.id in by_name:
                             if fn.id not in pure_now:
                                 return True
-                        elif fn.id not in self._PURE_BUILTINS:
+                        elif fn.id not in self._PURE_BUILTINS and not fn.id[:1].isupper():
                             return True
                     else:
                         return True
